@@ -109,7 +109,7 @@ class Ctx:
         if env_extra:
             env.update({k: str(v) for k, v in env_extra.items()})
         cmd = ["java", "-Xss512m", "-XX:+UseParallelGC", "-cp", JAR, "tlc2.TLC", "-workers", str(workers or NCPU),
-               "-metadir", os.path.join(work, "meta"), "-config", cfg]
+               "-metadir", os.path.join(work, "meta"), "-maxSetSize", "3000000", "-config", cfg]   # C16 compares all 1 114 112 runes of a class
         if simulate:
             cmd += ["-simulate", simulate]
         if extra:
